@@ -189,7 +189,9 @@ fn main() {
     }
     let n_tri = if th { 100_000 } else { 4000 };
     for n in 0..n_tri {
-        let m = if n % 4 == 0 { 200 } else { 25 };
+        // contains() walks the three edge lines for every point that is not strictly inside, so the probe
+        // of a large triangle is cubic: only a few large ones
+        let m = if n % 64 == 0 { if th { 200 } else { 90 } } else if n % 4 == 0 { 45 } else { 25 };
         let v = [Point::new(rng.i32(-m, m), rng.i32(-m, m)), Point::new(rng.i32(-m, m), rng.i32(-m, m)), Point::new(rng.i32(-m, m), rng.i32(-m, m))];
         if nonzero_area(&v) {
             run_case(&mut rec, &json!({"k":"triangle","v":[[v[0].x, v[0].y],[v[1].x, v[1].y],[v[2].x, v[2].y]]}));
